@@ -81,6 +81,45 @@ def run(ctx):
         # db handed to get_evm is the taken database
         dbt = W.resolve(F, gg, origin(gg, c.args[names.index("db")]))
         R.ob(mentions(dbt, "mem::take"), "SIBLING", c.where(), "SIBLING|%s|db" % name, "%s runs the EVM over `%s`, not over the live database" % (name, show(dbt)[:60]))
+    # ---- the EVM environment beyond TxEnv: whatever a site adjusts after the shared constructor (modify_cfg / modify_block /
+    # modify_* closures, or direct stores into .cfg / .block), every sibling adjusts too.  A limit lifted for execution only
+    # (or for simulation only) makes eth_call predict another outcome.
+    from tablerules import must_pass_on_success
+
+    def env_adjustments(site):
+        out = set()
+        top = site["top"]
+        for b in [top] + F.descendants(top.id):
+            for c in b.calls():
+                m = c.method or ""
+                if m.startswith("modify_") and m != "modify_tx" and not b.is_cleanup(c.bb):
+                    for cid in ((c.func or {}).get("arg_cl") or []):
+                        g = F.fns.get(cid)
+                        if g is not None:
+                            for path in W.field_stores(g):
+                                out.add("%s:%s" % (m[len("modify_"):], path))
+            for path in W.field_stores(b):
+                if path.startswith(".cfg.") or path.startswith(".block."):
+                    out.add("direct:%s" % path)
+        return out
+    ref_env = env_adjustments(ref)
+    for name, sx in sites.items():
+        mine = env_adjustments(sx)
+        R.ob(mine == ref_env, "SIBLING", sx["top"].where(), "SIBLING|%s|env-adjustments" % name,
+             "%s adjusts the EVM environment after get_evm with %s; the execution path with %s: simulation and execution run under "
+             "different rules" % (name, sorted(mine) or "nothing", sorted(ref_env) or "nothing"),
+             sample={"rule": "SIBLING", "site": name, "env_adjustments_after_get_evm": sorted(mine)})
+    # the shared constructor sets its cfg / block / tx defaults unconditionally (a default that depends on an argument the
+    # siblings pass differently - gas limit, txid, overrides - is a per-path rule)
+    gfs = W.field_stores(ge)
+    n_env = 0
+    for path, sts in sorted(gfs.items()):
+        if not (path.startswith(".cfg.") or path.startswith(".block.") or path.startswith(".tx.")):
+            continue
+        n_env += 1
+        R.ob(must_pass_on_success(ge, [bb for bb, _ in sts]), "SIBLING", ge.where(), "SIBLING|get_evm|unconditional:%s" % path,
+             "get_evm sets %s on some paths only" % path, sample={"rule": "SIBLING", "fn": "get_evm", "sets": path} if n_env % 4 == 1 else None)
+    R.floor("get_evm_env_fields", n_env, 10)
     # multi variant: nonce advanced per call
     g, fs = sites["read_contract_multi"]["stores"][0]
     top = sites["read_contract_multi"]["top"]
